@@ -130,7 +130,7 @@ def run_family(ck, cfgs, timeout=1800, allvariants=False, limit_only=False):
                     ok = ok and bool(devs) and asbuilt_ok and all(ck.known_finding(d, view_mm[0]) for d in devs)
                 if sq_mm:
                     # the squashed unpacker has its own whiteout handling: attributed by scenario class only
-                    sq_ids = [d.replace("C04-", "C04-unpack-") for d in devs if d in ("C04-same-layer-whiteout-recreate", "C04-opaque-ignored")]
+                    sq_ids = case.get("sqdevs", [])
                     ok = ok and bool(sq_ids) and all(ck.known_finding(d, sq_mm[0]) for d in sq_ids)
                 if ok:
                     continue
